@@ -98,9 +98,50 @@ def judge(acc, f, mode, ovf, d, n, cs, part, by='raw'):
     acc.sample(dict(case, codes=cl[:4] if arr else cs), 1)
 
 
+def judge_history(acc, f, mode, d, n, part):
+    """x >> n (or <<), then x[i] = v in place, then the same shift again: the second result must reflect the new element"""
+    cs = [c for c in (4, 8, 12, f.hi, f.lo) if f.lo <= c <= f.hi][:3]
+    if len(cs) < 2:
+        return
+    for newc in sorted({1, 3, f.hi, f.lo if f.signed else 1}):
+        if not (f.lo <= newc <= f.hi):
+            continue
+        case = {'part': part, 'history': True, 'fmt': list(f), 'shifting': mode, 'dir': d, 'n': n, 'codes': cs, 'new': newc}
+        acc.evaluations += len(cs)
+        acc.transitions += 4
+        acc.nontrivial += 1
+        try:
+            x = build(f, cs, (len(cs),), 'raw', shifting=mode)
+            z1 = (x << n) if d == '<<' else (x >> n)
+            x[0] = f.fvalue(newc)
+            z = (x << n) if d == '<<' else (x >> n)
+            got, gf = codes(z), fmt_of(z)
+        except Exception as e:
+            acc.violation('exception', case, '%s shift history raised %r' % (f.dtype, e), {'part': part, 'aspect': 'history'})
+            continue
+        now = [newc] + cs[1:]
+        bad = None
+        for i, c in enumerate(now):
+            if mode == 'expand':
+                if gf.value(got[i]) != f.value(c) * (Fraction(2) ** n if d == '<<' else Fraction(1, 2 ** n)):
+                    bad = i
+            elif d == '>>':
+                if got[i] != c >> n:
+                    bad = i
+            else:
+                r = c << n
+                if got[i] not in ({r} if f.lo <= r <= f.hi else {overflow_code(r, f, 'saturate'), overflow_code(r, f, 'wrap')}):
+                    bad = i
+        if bad is not None:
+            acc.violation('history', case, '%s codes %s: %s%d, then x[0] = code %d, then %s%d again (%s mode): element %d is code %d in %s'
+                          % (f.dtype, cs, d, n, newc, d, n, mode, bad, got[bad], gf.dtype), {'part': part, 'aspect': 'history'})
+        else:
+            acc.outcome('history_ok')
+
+
 def bounds(tier, seed):
     return {'small_scope': 'every code (scalar) of formats n_word<=%d, signed/unsigned, n_frac in {0, n_word//2} x shifting {expand,trunc,keep} x overflow '
-                           '{saturate,wrap} x {<<,>>} x n in 0..n_word+3; whole-format arrays; all ordered code pairs as 2-element arrays for n_word<=%d'
+                           '{saturate,wrap} x {<<,>>} x n in 0..n_word+3; whole-format arrays; shift / indexed write / shift again on one object; all ordered code pairs as 2-element arrays for n_word<=%d'
                            % ((5, 3) if tier == 'quick' else (6, 4)),
             'boundary': 'n_word in %s: boundary/walking-bit/seed codes, n in {0,1,2,n_word-1,n_word,n_word+3} with n_word+n<=62'
                         % ([8, 12, 16, 24, 31, 32] if tier == 'quick' else list(range(7, 33))),
@@ -132,6 +173,8 @@ def run_shard(sh):
                         for n in range(0, nw + 4):
                             judge(acc, f, mode, ovf, d, n, cs, 'S')
                             judge(acc, f, mode, ovf, d, n, cs, 'S', 'value')
+                            if ovf == 'saturate' and nw >= 3:
+                                judge_history(acc, f, mode, d, n, 'S')
                             for c in cs:
                                 judge(acc, f, mode, ovf, d, n, c, 'S')
                             if sh['pairs'] and ovf == 'saturate':
@@ -159,6 +202,9 @@ def run_shard(sh):
 def replay(case):
     reset_class_state()
     acc = Acc()
+    if case.get('history'):
+        judge_history(acc, Fmt(*case['fmt']), case['shifting'], case['dir'], case['n'], case['part'])
+        return [v for v in acc.violations if v['case'].get('new') == case['new']]
     judge(acc, Fmt(*case['fmt']), case['shifting'], case['overflow'], case['dir'], case['n'], case['codes'], case['part'], case.get('by', 'raw'))
     return acc.violations
 
